@@ -157,6 +157,7 @@ package syncer
 //@   ensures [taken] key != "" && s.config.MaxInflightRPCsPerSubnet > 0 && result ==> s.inflightSubnet[key] == old(s.inflightSubnet[key]) + 1
 //@   ensures [full] key != "" && s.config.MaxInflightRPCsPerSubnet > 0 && !result ==> old(s.inflightSubnet[key]) >= s.config.MaxInflightRPCsPerSubnet && snapshot(s.inflightSubnet) == old(snapshot(s.inflightSubnet))
 //@   ensures [others] forall k string :: { k in s.inflightSubnet } k != key ==> ((k in s.inflightSubnet) <==> old(k in s.inflightSubnet)) && s.inflightSubnet[k] == old(s.inflightSubnet[k])
+//@   ensures [lock-released] ncalls("Lock") == ncalls("Unlock")
 //@ func (*Syncer).releaseInflight props C18
 //@   nopanic
 //@   assigns map:map[string]int
@@ -165,6 +166,7 @@ package syncer
 //@   ensures [inv] inflightInv(s)
 //@   ensures [released] key != "" && s.config.MaxInflightRPCsPerSubnet > 0 ==> s.inflightSubnet[key] == old(s.inflightSubnet[key]) - 1 && ((key in s.inflightSubnet) <==> old(s.inflightSubnet[key]) > 1)
 //@   ensures [others] forall k string :: { k in s.inflightSubnet } k != key ==> ((k in s.inflightSubnet) <==> old(k in s.inflightSubnet)) && s.inflightSubnet[k] == old(s.inflightSubnet[k])
+//@   ensures [lock-released] ncalls("Lock") == ncalls("Unlock")
 //
 // runPeer: every per-peer slot taken by the blocking send on `inflight` is, within the same loop
 // iteration, either given back (subnet at its limit) or handed to exactly one handler goroutine;
